@@ -1,6 +1,6 @@
 SPECIFICATION GenSpec
 CONSTANTS
   Fams = {"A0", "A1", "A2", "A3", "B", "C"}
-  Sample = 220
+  Sample = 150
 INVARIANTS Emit
 CHECK_DEADLOCK FALSE
